@@ -76,6 +76,7 @@ def report(check, tier, seed, agg):
     new_violations = []
     known_hits = {}
     seen_sigs = {}
+    new_classes = {}
     budget_t = time.time() + check.plan(tier).get('minimise_budget_s', 120)
     for entry in agg['violations']:
         v = entry['violation']
@@ -98,6 +99,10 @@ def report(check, tier, seed, agg):
         if k is not None:
             known_hits.setdefault(k['id'], [k, 0])[1] += 1
             continue
+        ckey = (sig.get('clause'), sig.get('config_class'), sig.get('fault_kind'))
+        new_classes[ckey] = new_classes.get(ckey, 0) + 1
+        if new_classes[ckey] > 2 or len(new_violations) >= 16:
+            continue
         path = kernel.write_replay(check.ID, seed, entry, mcase, mv, sig)
         new_violations.append((path, mv, sig))
     for kid, (k, n) in sorted(known_hits.items()):
@@ -105,7 +110,8 @@ def report(check, tier, seed, agg):
     for h in agg['harness_errors'][:5]:
         print('HARNESS-ERROR in case', h['index'], ':', str(h['error'])[-800:])
     extra = {'known_findings_matched': {kid: n for kid, (k, n) in known_hits.items()},
-             'violating_runs': agg['violation_count']}
+             'violating_runs': agg['violation_count'],
+             'new_violation_classes': {str(k): n for k, n in new_classes.items()}}
     inadequate = check.adequacy(tier, agg) if hasattr(check, 'adequacy') else []
     extra['adequacy_failures'] = inadequate
     kernel.write_evidence(check, tier, seed, agg, extra, violations=len(new_violations))
@@ -113,13 +119,10 @@ def report(check, tier, seed, agg):
           f"{len(agg['nontrivial_digests'])} distinct non-trivial, {agg['steps']} simulated steps, "
           f"{agg['violation_count']} violating runs ({len(new_violations)} new), "
           f"{len(agg['harness_errors'])} harness errors")
+    for ckey, n in sorted(new_classes.items(), key=str):
+        print(f"   new violation class {ckey}: {n} runs")
     if new_violations:
-        shown = set()
         for path, mv, sig in new_violations:
-            key = json.dumps(sig, sort_keys=True, default=str)
-            if key in shown and len(shown) > 8:
-                continue
-            shown.add(key)
             print(f"VIOLATION property={check.ID} replay={path}")
             print(f"   clause={mv.get('clause')} config={mv.get('config_name')} expected={str(mv.get('expected'))[:300]} "
                   f"observed={str(mv.get('observed'))[:300]}")
